@@ -1,22 +1,27 @@
 (* Correspondence check for C13: the recorded decisions of a real argsort run are replayed through
    the model; the final index tuple must be equal.  Definitions only. *)
-From Coq Require Import List Bool Arith.
-From Hpotk Require Import Base.Emit Sort.Model.
+From Coq Require Import List Bool Arith ZArith.
+From Hpotk Require Import Base.Emit Sort.Model Sort.Argmax.
 Import ListNotations.
 Open Scope list_scope.
 
 Inductive scase :=
 | SArgsort (ids : list nat) (ds : list decision) (observed : option (list nat))     (* None = ValueError *)
-| SFindIndices (source ordered : list nat) (observed : option (list nat)).
+| SFindIndices (source ordered : list nat) (observed : option (list nat))
+(* the similarity values the measure returned, call by call (as ranks: an order-isomorphic image of the floats with
+   zero and epsilon), and the index tuple argsort returned *)
+| SArgsortVals (ids : list nat) (zero eps : Z) (vals : list Z) (observed : option (list nat)).
 
 Definition check_scase (c : scase) : bool :=
   match c with
   | SArgsort ids ds obs => opt_eqb (list_eqb Nat.eqb) (argsort (replay ds) ids) obs
   | SFindIndices src ord obs => opt_eqb (list_eqb Nat.eqb) (find_indices src ord) obs
+  | SArgsortVals ids zero eps vals obs => opt_eqb (list_eqb Nat.eqb) (argsort_vals zero eps ids vals) obs
   end.
 
 Definition smodel_answer (c : scase) : option (list nat) :=
   match c with
   | SArgsort ids ds _ => argsort (replay ds) ids
   | SFindIndices src ord _ => find_indices src ord
+  | SArgsortVals ids zero eps vals _ => argsort_vals zero eps ids vals
   end.
